@@ -353,6 +353,9 @@ func run(in In) (obs Obs) {
 			if ev.Mine && (ev.Status == 1 || ev.Status == 2) && handed {
 				waitRes(2 * time.Second)
 			}
+		case "real-deadline":
+			// let the handler's own deadline (context.WithTimeout in handleBid) expire in real time
+			waitRes(5700 * time.Millisecond)
 		case "deadline", "cancel":
 			cancel()
 			waitRes(2 * time.Second)
@@ -685,6 +688,26 @@ func main() {
 			}
 		}
 	}
+	// a real-time cell: the engine accepts 5.7 s after it took the bid (the handler's own 5 s
+	// deadline, not an emulated one); runs in the background while the matrix executes
+	var bg sync.WaitGroup
+	realCells := [][]Event{{H, {T: "real-deadline"}, D(true, 1)}}
+	if vh.Thorough() {
+		realCells = append(realCells, []Event{{T: "real-deadline"}, H, D(true, 1)}, []Event{H, D(false, 1), {T: "real-deadline"}, D(true, 1)})
+	}
+	for _, sc := range realCells {
+		sc := sc
+		b := mkBid("valid")
+		bg.Add(1)
+		go func() {
+			defer bg.Done()
+			a := allowances["yes"]
+			in := In{Tag: "engine:accept-after-real-deadline", Role: 2, ReadOK: true, Bid: toJ(b), MinAns: a[0], AmtAns: a[1], Schedule: sc,
+				SignOK: true, StoreOK: true, WriteOK: true, Selector: sel, Prims: []Prim{prim(b.Digest, b.Signature)}}
+			out.Emit(in, run(in))
+		}()
+	}
+	defer bg.Wait()
 	// (1) every single gate failure with an accepting engine; (2) every engine behaviour with all gates open
 	for _, r := range roles {
 		emit("role", r, true, mkBid("valid"), "yes", accept, true, true, true)
